@@ -43,6 +43,8 @@ type c11Peer struct {
 	reconnectAfter int // reconnect (new conv) after this many writes, -1 never
 	closedOld      []*kcp.UDPSession
 	reached        bool // at least one datagram of this incarnation reached the listener
+	openerIn       bool // a data packet of this incarnation that starts with sn 0 has been handed to the listener
+	openerChecked  bool
 }
 
 func c11Sid(addr string, conv uint32) uint32 {
@@ -87,12 +89,18 @@ func TestC11Isolation(t *testing.T) {
 			plans = append(plans, pl)
 		}
 		acceptLate := rapid.SampledFrom([]int64{0, 0, 50, 2000}).Draw(rt, "acceptDelayMs")
+		// the library's millisecond clock: a young process, one that has been up
+		// for minutes or weeks, and the 2^31 / 2^32 wrap points
+		clockOff := uint32(0)
+		if rapid.IntRange(0, 2).Draw(rt, "clock") > 0 {
+			clockOff = rapid.OneOf(rapid.SampledFrom([]uint32{65_000, 70_000, 1 << 20, 1 << 24, 3_000_000_000}), rapid.Custom(func(t *rapid.T) uint32 { return drawOffset(t, "clk", 30_000) })).Draw(rt, "clockOff")
+		}
 		nForeign := rapid.IntRange(0, 25).Draw(rt, "nForeign")
 		foreignEvery := rapid.IntRange(1, 5).Draw(rt, "foreignEvery")
 		var foreignPassed, foreignTotal, maxConcurrent, reconnected, staleFlushed int
 		inconclusive := false
 		rapid.SyncTest(rt, func(rt *rapid.T) {
-			s := sim.NewSessSim(0, 11)
+			s := sim.NewSessSim(clockOff, 11)
 			s.DefaultDelay = 5
 			laddr := &net.UDPAddr{IP: net.IPv4(10, 0, 0, 1), Port: 29900}
 			lconn := s.Net.Listen(laddr)
@@ -110,6 +118,7 @@ func TestC11Isolation(t *testing.T) {
 				p.cli.SetNoDelay(1, 10, 2, 1)
 				p.cli.SetWindowSize(64, 64)
 				p.srv, p.accepts, p.recv, p.sent, p.reached = nil, 0, 0, 0, false
+				p.openerIn, p.openerChecked = false, false
 				p.total = 0
 				for _, n := range p.writes[p.wi:] {
 					p.total += int64(n)
@@ -166,6 +175,41 @@ func TestC11Isolation(t *testing.T) {
 			}
 			strangerAddr := &net.UDPAddr{IP: net.IPv4(10, 9, 9, 9), Port: 999}
 			dgCount := 0
+			// As soon as the listener has been handed a genuine data packet that
+			// opens this incarnation's conversation (first segment sn 0) it must
+			// own a session for that address and conversation - whatever was
+			// there before, whatever the clock says. No timing involved.
+			s.OnDeliver = func(to string, from net.Addr, data []byte) {
+				p := byAddr(from.String())
+				if to != laddr.String() || p == nil || p.openerIn {
+					return
+				}
+				_, pl, err := crypto.Open(data)
+				if err != nil {
+					return
+				}
+				fr, err := wire.ParseFrame(pl, fec[0] > 0)
+				if err != nil || (fr.HasFEC && fr.Type != wire.TypeData) || len(fr.Segments) == 0 {
+					return
+				}
+				if sg := fr.Segments[0]; sg.Conv == p.conv && sg.Sn == 0 {
+					p.openerIn = true
+				}
+			}
+			s.AfterEvent = func() {
+				for _, p := range peers {
+					if !p.openerIn || p.openerChecked {
+						continue
+					}
+					p.openerChecked = true
+					x := L.VerifSession(p.addr.String())
+					if x == nil {
+						s.Fail("peer %s (incarnation %d): the listener was handed the first data packet of conversation %#x (sn 0) and has no session for that address afterwards", p.addr, p.inc, p.conv)
+					} else if x.GetConv() != p.conv {
+						s.Fail("peer %s (incarnation %d): the listener was handed the first data packet of conversation %#x (sn 0) but still runs conversation %#x for that address", p.addr, p.inc, p.conv, x.GetConv())
+					}
+				}
+			}
 			if os.Getenv("VERIF_TRACE") != "" {
 				s.OnDeliver = func(to string, from net.Addr, data []byte) {
 					_, pl, err := crypto.Open(data)
@@ -496,6 +540,12 @@ func TestC11Isolation(t *testing.T) {
 		if fec[0] > 0 {
 			cl = append(cl, "fec_on")
 		}
+		if clockOff >= 65536 {
+			cl = append(cl, "clock_beyond_16_bits")
+			if reconnected > 0 && fec[0] > 0 {
+				cl = append(cl, "fec_reconnect_with_clock_beyond_16_bits")
+			}
+		}
 		if inconclusive {
 			rec.Class("script_unfinished_inconclusive", 1)
 		}
@@ -503,7 +553,7 @@ func TestC11Isolation(t *testing.T) {
 			rec.Exclude(c11KeyStaleFEC)
 		}
 		rec.Add("n_foreign_injected", int64(foreignTotal))
-		rec.Case(hx.Hash64(cipher, fec, plans, acceptLate, nForeign, foreignEvery), maxConcurrent >= 3 && foreignPassed > 0, cl...)
+		rec.Case(hx.Hash64(cipher, fec, plans, acceptLate, nForeign, foreignEvery, clockOff), maxConcurrent >= 3 && foreignPassed > 0, cl...)
 		if rec.WantSample() {
 			var w [][]int
 			for _, p := range plans {
